@@ -92,6 +92,8 @@ def _map_term(t, lm, bm):
         n["otherwise"] = bm(t["otherwise"])
     elif k == "call":
         n["args"] = [_map_op(a, lm) for a in t["args"]]
+        if "indirect" in t["callee"]:
+            n["callee"] = {"indirect": _map_op(t["callee"]["indirect"], lm)}
         n["dest"] = _map_place(t["dest"], lm)
         n["target"] = bm(t["target"]) if t["target"] >= 0 else t["target"]
     elif k == "assert":
@@ -338,6 +340,7 @@ class Inliner:
                     changed = True
             if not changed:
                 break
+        self._devirtualise()
         self.prog._cg = None
         self.prog._always_err = {}
         # remove helpers that are no longer called (never known, never public API of a known type, address not taken)
@@ -376,6 +379,42 @@ class Inliner:
         return self
 
     _was_inlined = set()
+
+    def _devirtualise(self):
+        """a call through a local that only ever holds one fn item (a constructor passed as `wrap: fn(i64) -> T` to a
+        helper that was inlined) becomes a direct call of that item"""
+        from mirlib import Fn
+        for p in sorted(self.prog.fns):
+            f = self.prog.fns[p]
+            todo = []
+            for bi, b in enumerate(f.blocks):
+                t = b["term"]
+                if b["cleanup"] or t["k"] != "call" or "indirect" not in t["callee"]:
+                    continue
+                op = t["callee"]["indirect"]
+                for _ in range(6):
+                    if op.get("k") == "const":
+                        break
+                    if op.get("k") not in ("copy", "move") or op["place"]["proj"]:
+                        op = None
+                        break
+                    ds = f.whole_defs(op["place"]["local"])
+                    if len(ds) != 1 or len(f.defs().get(op["place"]["local"], [])) != 1 or ds[0][0] != "stmt" or ds[0][1]["k"] not in ("use", "cast"):
+                        op = None
+                        break
+                    op = ds[0][1]["op"] if ds[0][1]["k"] == "use" else ds[0][1]["a"]
+                if op is not None and op.get("k") == "const" and "fn" in op:
+                    todo.append((bi, op))
+            if not todo:
+                continue
+            d = dict(f.d)
+            d["blocks"] = copy.deepcopy(f.blocks)
+            for bi, op in todo:
+                path = op.get("fn_resolved") or op["fn"]
+                d["blocks"][bi]["term"]["callee"] = {"path": op["fn"], "resolved": path, "is_resolved": True, "local": path in self.prog.fns, "crate": "", "args": [], "devirtualised": True}
+            nf = Fn(d, f.crate)
+            nf.program = self.prog
+            self.prog.fns[p] = nf
 
     def _closures_passed_on(self):
         """closures whose value still reaches a call argument somewhere (adapters, callbacks)"""
